@@ -129,6 +129,19 @@ func suiteStrings(rn *runner, r *rng, tier string) {
 		rn.rep.Distribution[cls]++
 		rn.seen[cls] = true
 	}
+	// boundaries of the UTF-8 length classes and of the surrogate range, both hex cases, in every run
+	for _, cu := range []int{0, 1, 0x1f, 0x20, 0x22, 0x5c, 0x7e, 0x7f, 0x80, 0x81, 0xff, 0x100, 0x7fe, 0x7ff, 0x800, 0x801, 0xfff, 0x1000,
+		0xd7fe, 0xd7ff, 0xe000, 0xe001, 0xfffd, 0xfffe, 0xffff} {
+		for _, f := range []string{"\\u%04x", "\\u%04X"} {
+			cr := r.fork()
+			emit(cr, "ab"+fmt.Sprintf(f, cu)+"c", "ubound")
+			emit(cr, fmt.Sprintf(f, cu), "ubound")
+		}
+	}
+	for _, pr := range [][2]int{{0xd800, 0xdc00}, {0xd800, 0xdfff}, {0xdbff, 0xdc00}, {0xdbff, 0xdfff}, {0xd83d, 0xde00}} {
+		cr := r.fork()
+		emit(cr, fmt.Sprintf("\\u%04x\\u%04x", pr[0], pr[1]), "pairbound")
+	}
 	// every \u code unit (sampled in quick), both hex cases
 	step := 37
 	if thorough {
@@ -231,6 +244,19 @@ func suiteND(rn *runner, r *rng, tier string) {
 			cfg.maxDepth, cfg.maxMembers = 1, 2
 		}
 		text, lines := cr.ndjson(cfg, nl, cr.chance(1, 3))
+		if cr.chance(1, 12) {
+			// a run of blank lines (every LF is a structural): index buffers fill up with newline entries and the
+			// message ends shortly after a buffer closes
+			run := 1380 + cr.intn(330)
+			sep := strings.Repeat("\n", run)
+			if cr.chance(1, 2) {
+				k := cr.intn(run)
+				sep = sep[:k] + " " + sep[k:]
+			}
+			text = "[]" + sep + strings.TrimLeft(text, " \t\r\n")
+			lines = append([]string{"[]"}, lines...)
+			nl = len(lines) + run
+		}
 		tc := valueCase(cr, text, true, "nd")
 		if nl > 50 {
 			// keep replies small for long inputs: compare hashes and the oracle verdict only
